@@ -223,7 +223,9 @@ func c11Build(sc c11Scenario, implicit bool) (files map[string]string, configFil
 		at("secrets")["secrets"] = []any{s}
 	}
 	if !absent["env_file"] {
-		if sp("env_file.required") == spI && sc.ListDeps {
+		// both spellings must carry the same sibling attributes: the short string form cannot hold `format`, so it is
+		// only used when the scenario has none
+		if sp("env_file.required") == spI && sc.ListDeps && !sc.NullRes {
 			at("env_file")["env_file"] = []any{"e.env"}
 		} else {
 			e := map[string]any{"path": "e.env"}
@@ -688,6 +690,10 @@ func c11RealMeta(raw json.RawMessage) any {
 			if want == nil {
 				b, _ := json.Marshal(s.Dflt)
 				json.Unmarshal(b, &want)
+			}
+			if s.ID == "env_file.required" && sc.NullRes {
+				// with a `format` the project renders the entry in long form (the short form is path-only)
+				want = map[string]any{"path": "$ROOT/e.env", "required": true, "format": "c11raw"}
 			}
 			got, ok := c11Get(exp, path)
 			if s.ID == "build.dockerfile" && sc.Inline {
